@@ -6,7 +6,7 @@ from .sym import (SV, State, Unsupported, NONE, MARKER, mk_int, mk_bool,
                   fresh, INT, BOOL, KS, ELEM_SORT, ELEM_KIND, KIND_SORT)
 from .engine import Engine, Obl, FIELDS, CLASS_IDS, PERSISTENT, field_sort
 from .expr import ExprMixin, exc, exc_matches
-from .spec import SpecMixin, SpecCtx, Contract, parse_kind, TK, TV
+from .spec import SpecMixin, SpecCtx, Contract, parse_kind, TK, TV, REPK, REPV
 
 CMP = z3.Function("compare", KS, KS, INT)
 
@@ -154,6 +154,10 @@ class Exec(ExprMixin, SpecMixin, Engine):
             if c.x in ("KeyError", "ValueError", "TypeError", "IndexError",
                        "AssertionError", "BTreesConflictError"):
                 return [(s, SV("excobj", None, c.x))]
+            if c.x.startswith("list:"):
+                ek = c.x[5:]
+                dflt = z3.RealVal(0) if ek == "K" else z3.IntVal(0)
+                return [(s, self.new_list(s, ek, z3.K(INT, dflt), z3.IntVal(0)))]
             if c.x == "_TreeItem":
                 r = self.new_ref(s, "_TreeItem")
                 o = SV("ref", r, "_TreeItem")
@@ -306,6 +310,8 @@ class Exec(ExprMixin, SpecMixin, Engine):
             if x.kind == "any":
                 s2 = s.copy()
                 s2.trace.append("to_key raises")
+                s.assume(REPK(x.z))
+                s2.assume(z3.Not(REPK(x.z)))
                 return [(s, SV("K", TK(x.z))), (s2, exc("TypeError"))]
             if x.kind in ("none", "marker"):
                 return [(s, exc("TypeError"))]
@@ -315,6 +321,8 @@ class Exec(ExprMixin, SpecMixin, Engine):
             if x.kind == "any":
                 s2 = s.copy()
                 s2.trace.append("to_value raises")
+                s.assume(REPV(x.z))
+                s2.assume(z3.Not(REPV(x.z)))
                 return [(s, SV("V", TV(x.z))), (s2, exc("TypeError"))]
             if x.kind == "none":
                 return [(s, SV("V", z3.IntVal(0)))]
